@@ -63,6 +63,9 @@ impl MT190 {
         // Parse optional field 72
         let field_72 = parser.parse_optional_field::<Field72>("72")?;
 
+        // Reject content left after the last field of the message
+        verify_parser_complete(&parser)?;
+
         Ok(MT190 {
             field_20,
             field_21,
